@@ -990,6 +990,12 @@ var detDenyCalls = map[string]string{
 	"runtime.NumCPU": "machine property", "runtime.NumGoroutine": "scheduler state", "runtime.GOMAXPROCS": "machine property", "runtime.ReadMemStats": "runtime state",
 	"(*sync.Map).Range": "sync.Map iteration order", "(reflect.Value).MapKeys": "map order via reflection", "(reflect.Value).MapRange": "map order via reflection",
 }
+// zoneMethods: methods of time.Time whose result depends on the time's location.
+var zoneMethods = map[string]bool{"(time.Time).AddDate": true, "(time.Time).Date": true, "(time.Time).Day": true, "(time.Time).Month": true, "(time.Time).Year": true,
+	"(time.Time).YearDay": true, "(time.Time).Weekday": true, "(time.Time).Hour": true, "(time.Time).Minute": true, "(time.Time).Clock": true, "(time.Time).ISOWeek": true,
+	"(time.Time).Format": true, "(time.Time).AppendFormat": true, "(time.Time).String": true, "(time.Time).Zone": true, "(time.Time).ZoneBounds": true, "(time.Time).IsDST": true,
+	"(time.Time).MarshalJSON": true, "(time.Time).MarshalText": true, "(time.Time).Truncate": false}
+
 var detDenyPkgs = map[string]string{"math/rand": "pseudo-random source", "math/rand/v2": "pseudo-random source", "crypto/rand": "random source", "github.com/spf13/viper": "node-local configuration", "unsafe": "unsafe"}
 
 func init() { register("C01", checkC01) }
@@ -1183,6 +1189,13 @@ func checkC01(r *Result) {
 				} else if cal := c.Common().StaticCallee(); cal != nil && cal.Pkg != nil {
 					if w, ok := detDenyPkgs[cal.Pkg.Pkg.Path()]; ok {
 						why = w
+					}
+				}
+				// zone-dependent readings of a time that was built in the process's local zone (time.Unix* return local
+				// times; block times are UTC): calendar arithmetic, calendar fields and formatting differ between hosts
+				if why == "" && zoneMethods[name] && len(c.Common().Args) > 0 {
+					if t := NewTermer().Of(c.Common().Args[0]); (t.Contains("call:time.UnixMilli") || t.Contains("call:time.Unix") || t.Contains("call:time.UnixMicro") || t.Contains("global:time.Local")) && !t.Contains("call:(time.Time).UTC") && !t.Contains("call:(time.Time).In") {
+						why = "calendar reading of a time in the host's local zone (time.Unix* builds local times; use .UTC())"
 					}
 				}
 				if why == "" {
